@@ -4,6 +4,7 @@
   pairwise win scorers of `votelib/component/pairwin_scorer.py`.
 -/
 import VotelibModel.Condorcet
+import VotelibModel.Gen.PairwinScorer
 namespace VL.Condorcet
 open VL
 
@@ -124,11 +125,15 @@ inductive Scorer where
   | winningVotes | margins | pairwiseOpposition
 deriving DecidableEq, Repr
 
+/-- the three scorers: a dict comprehension over `counts.items()` whose value for one pair is the function
+    of the pair's own count and of `counts.get(reversed pair, 0)` that `harness/translate.py` regenerates from
+    `pairwin_scorer.py` on every run (`VotelibModel/Gen/PairwinScorer.lean`) -/
 def scorePairs (sc : Scorer) (v : Pairwise) : Pairwise :=
   match sc with
-  | .winningVotes => v.map (fun e => (e.1, if pget v (e.1.2, e.1.1) < e.2 then e.2 else 0))
-  | .margins => v.map (fun e => (e.1, e.2 - pget v (e.1.2, e.1.1)))
-  | .pairwiseOpposition => v
+  | .winningVotes => v.map (fun e => (e.1, Gen.PairwinScorer.winning_votes_value e.2 (pget v (e.1.2, e.1.1))))
+  | .margins => v.map (fun e => (e.1, Gen.PairwinScorer.margins_value e.2 (pget v (e.1.2, e.1.1))))
+  | .pairwiseOpposition =>
+    v.map (fun e => (e.1, Gen.PairwinScorer.pairwise_opposition_value e.2 (pget v (e.1.2, e.1.1))))
 
 /-! ### minimax (condorcet.py L383-429) -/
 
